@@ -86,7 +86,7 @@ Theorem C04_who_text : forall i s c nick viewer mask, InvS s ->
 Proof. exact (who_channel_spec cfg). Qed.
 
 (* PART is announced to every member of the channel as it was before the departure - the departing
-   user included - one copy each (KICK, JOIN and NICK announcements: C09, C07 / C16, C15) *)
+   user included - one copy each (KICK and JOIN: below; NICK: C15_accepted) *)
 Theorem C04_part_announced : forall i s c ch reason r nick co,
   c_nick c = Some nick -> chans s !! ch = Some co -> nick ∈ dom (ch_users co) ->
   process_part cfg i s c [ch] reason = Ok r ->
@@ -95,6 +95,50 @@ Theorem C04_part_announced : forall i s c ch reason r nick co,
                                  | None => lit "PART " ++ ch end) in
   Forall2 (delivered s line) (member_names co) (h_out r) /\ nick ∈ member_names co.
 Proof. exact (part_announced cfg). Qed.
+
+(* KICK of one victim the rank rule lets through (C09): after the removal one copy of the KICK line goes
+   to every member that is left and one to the victim itself; refusals go to the sender only *)
+Theorem C04_kick_announced : forall i s c ch v comment r nick,
+  c_nick c = Some nick -> (kick_decide s nick (client_name c) ch [v]).1 = [v] ->
+  process_kick cfg i s c ch [v] comment = Ok r ->
+  let line := from (c_source c) (lit "KICK " ++ ch ++ [c_space] ++ v ++ lit " :" ++ default (lit "Kicked") comment) in
+  exists rest x,
+    h_out r = mine cfg i (kick_decide s nick (client_name c) ch [v]).2 ++ rest ++ [x] /\
+    delivered (h_sh r) line v x /\
+    match chans (h_sh r) !! ch with
+    | Some co' => Forall2 (delivered (h_sh r) line) (member_names co') rest
+    | None => rest = []
+    end.
+Proof. exact (kick_announced cfg). Qed.
+
+(* JOIN: the output of the command is the refusals of the planning phase (C07_comma_list), to the sender,
+   followed by the announcements of the plan's entries in order, made against the state in which all
+   accepted entries are inserted; an accepted entry tells the joiner first (JOIN line, topic if any,
+   NAMES list) and then gives one copy of the JOIN line to every OTHER member; a refused entry
+   announces nothing *)
+Theorem C04_join_output : forall i s c chs keys r nick u,
+  c_nick c = Some nick -> users s !! nick = Some u -> process_join cfg i s c chs keys = Ok r ->
+  exists plan o1 cnt o2,
+    join_phase1 cfg s c u nick (client_name c) chs keys 0 [] (N.of_nat (size (u_chans u))) = Ok (plan, o1, cnt) /\
+    rfold (join_insert nick) plan s = Ok (h_sh r) /\
+    rfold (join_announce cfg i c nick (client_name c) (h_sh r)) plan [] = Ok o2 /\
+    h_out r = mine cfg i o1 ++ o2.
+Proof. exact (join_output cfg). Qed.
+
+Theorem C04_join_announced : forall i c nick client s acc ch create co o,
+  chans s !! ch = Some co -> join_announce cfg i c nick client s acc (ch, (true, create)) = Ok o ->
+  let line := from (c_source c) (lit "JOIN " ++ ch) in
+  exists names others,
+    names_lines s c client nick ch co true = Ok names /\
+    o = acc ++ [(i, line)]
+            ++ mine cfg i (match ch_topic co with Some (t, _) => [rpl_topic client ch t] | None => [] end ++ names)
+            ++ others /\
+    Forall2 (delivered s line) (List.filter (fun n => negb (str_eqb n nick)) (member_names co)) others.
+Proof. exact (join_announce_accepted cfg). Qed.
+
+Theorem C04_join_refused_silent : forall i c nick client s acc ch create,
+  join_announce cfg i c nick client s acc (ch, (false, create)) = Ok acc.
+Proof. exact (join_announce_refused cfg). Qed.
 
 (* the two views read one relation: n is on #ch's roster iff #ch is in n's membership set *)
 Theorem C04_views_agree : forall s n u ch co, InvS s -> users s !! n = Some u -> chans s !! ch = Some co ->
@@ -113,3 +157,7 @@ Print Assumptions C04_whois_text.
 Print Assumptions C04_views_agree.
 Print Assumptions C04_who_text.
 Print Assumptions C04_part_announced.
+Print Assumptions C04_kick_announced.
+Print Assumptions C04_join_output.
+Print Assumptions C04_join_announced.
+Print Assumptions C04_join_refused_silent.
